@@ -35,13 +35,15 @@ CHATTER = ['page one\x0cpage two', 'a\x0bb', 'fs\x1cgs\x1drs\x1eus\x1f.', 'nel\x
 
 def plan(tier, seed):
     if tier == 'quick':
-        return [{'n': 12, 'len': [10, 45], 'cuts': 'all'} for _ in range(14)] + [{'mode': 'proc', 'n': 2} for _ in range(2)]
+        return [{'n': 12, 'len': [10, 45], 'cuts': 'all'} for _ in range(14)] + [{'mode': 'proc', 'n': 4} for _ in range(2)]
     return [{'n': 40, 'len': [10, 120], 'cuts': 'all'} for _ in range(60)] + [{'mode': 'proc', 'n': 12} for _ in range(4)]
 
 
 def build_input(rng, cands):
     k = rng.choice([1, 2, 2, 3])
-    st = streams.build(rng, cands, k=k, n_each=(8, 40), tagged=(k > 1 or rng.random() < 0.3), opts={'titles': rng.choice([0.02, 0.12])})
+    st = streams.build(rng, cands, k=k, n_each=(8, 40), tagged=(k > 1 or rng.random() < 0.3), opts={'titles': rng.choice([0.02, 0.12])} if rng.random() < 0.85 else
+                       # a message line of several thousand characters (a long window title is a legal request)
+                       {'titles': 0.25, 'app_pool': ['t' * 4090, 'long title ' * 420, 'w' * 9000, 'ordinary']})
     items = []      # [('msg', entry) | ('chat', text)]
     msg_lines = [e['line'] for e in st['entries']]
     for e in st['entries']:
@@ -330,9 +332,96 @@ def run_proc(ctx, spec):
                     ctx.violation('proc-prefix', '%s cut after %d lines: output is not a prefix of the full output' % (mode, p), case)
                     break
             ctx.sig(['proc', h64(ls), sup])
+            if i % 2 == 0:
+                pace_through_fifo(ctx, rng, d, ls, sup)
     finally:
         import shutil
         shutil.rmtree(d, ignore_errors=True)
+
+
+def pace_through_fifo(ctx, rng, d, ls, sup):
+    """keeping pace with a source that is still open: the log arrives through a named pipe (`-l FIFO`) or standard input (`-p`), one
+    line at a time; the item a line owes must show up while the source is still open and nothing more has been written.  The
+    verdict is not a wall-clock deadline: a line counts as not answered only when the tool has been IDLE (no CPU time
+    consumed, blocked on its input) for three seconds in a row after the line was written."""
+    import fcntl
+    import os
+    import subprocess
+    import time
+    msg_lines = [l for l in ls if l.strip() and not l.isspace()][:12]
+    if len(msg_lines) < 3:
+        return
+    mode = rng.choice(['-l', '-p'])
+    fifo = os.path.join(d, 'in.fifo')
+    if os.path.exists(fifo):
+        os.unlink(fifo)
+    args = ['/venv/bin/python', os.path.join(env.REPO, 'main.py'), '-C'] + (['--supress'] if False else [])
+    e2 = dict(os.environ, PYTHONIOENCODING='utf-8', LC_ALL='C.UTF-8')
+    if mode == '-l':
+        os.mkfifo(fifo)
+        p = subprocess.Popen(args + ['-l', fifo], stdin=subprocess.PIPE, stdout=subprocess.PIPE, stderr=subprocess.DEVNULL, env=e2)
+        w = os.open(fifo, os.O_WRONLY)
+    else:
+        p = subprocess.Popen(args + ['-p'], stdin=subprocess.PIPE, stdout=subprocess.PIPE, stderr=subprocess.DEVNULL, env=e2)
+        w = p.stdin.fileno()
+    fl = fcntl.fcntl(p.stdout.fileno(), fcntl.F_GETFL)
+    fcntl.fcntl(p.stdout.fileno(), fcntl.F_SETFL, fl | os.O_NONBLOCK)
+    from ..runner import proc_cpu_s
+    got = b''
+    case = {'lines': msg_lines, 'supress': False, 'mode': mode + ' (source kept open, one line at a time)'}
+    try:
+        for n, line in enumerate(msg_lines):
+            os.write(w, line.encode('utf-8', 'replace'))
+            before = got.count(b'\n')
+            idle_since = None
+            cpu0 = proc_cpu_s(p.pid)
+            t_end = time.time() + 120
+            answered = False
+            while time.time() < t_end:
+                try:
+                    chunk = p.stdout.read()
+                except BlockingIOError:
+                    chunk = None
+                if chunk:
+                    got += chunk
+                if got.count(b'\n') > before:
+                    answered = True
+                    break
+                if p.poll() is not None:
+                    break
+                time.sleep(0.05)
+                cpu = proc_cpu_s(p.pid)
+                if cpu is not None and cpu0 is not None and cpu - cpu0 < 0.02:
+                    idle_since = idle_since or time.time()
+                    if time.time() - idle_since > 3.0:
+                        break
+                else:
+                    idle_since = None
+                    cpu0 = cpu
+            ctx.ev()
+            if not answered:
+                if p.poll() is not None:
+                    ctx.violation('proc-exit', '%s: the tool exited (status %r) while its input was still open, after line %d' % (mode, p.returncode, n), case)
+                elif idle_since is not None and time.time() - idle_since > 3.0:
+                    ctx.violation('pace', '%s with the source still open: line %d %r was written, the tool then sat idle for 3 s without producing the item it owes '
+                                  '(%d lines of output so far)' % (mode, n, line[:100], before), case)
+                else:
+                    ctx.inconc('pace probe: no answer to line %d within 120 s and the tool was not idle' % n)
+                return
+        ctx.count('lines_answered_while_the_source_was_open', len(msg_lines))
+        ctx.count('pace_probes')
+    finally:
+        try:
+            if mode == '-l':
+                os.close(w)
+                p.stdin.write(b'quit\n')
+            p.stdin.close()
+        except Exception:
+            pass
+        try:
+            p.wait(timeout=60)
+        except Exception:
+            p.kill()
 
 
 def replay(ctx, case):
